@@ -388,7 +388,7 @@ func (db *RedisPermanent) mergeTempDatabaseFromLeveldb(ctx context.Context, temp
 		temp.policy,
 	)
 
-	db.basePermanent.mergeTempCaches(temp.stcache, temp.instateoperationcache)
+	db.basePermanent.mergeTempCaches(temp.Height(), temp.stcache, temp.instateoperationcache)
 
 	// NOTE purge old items from stcache
 	if err := temp.iterStateKeys(func(stateKey string) (bool, error) {
